@@ -685,8 +685,8 @@ func runDecoder(kind string, body []byte) (res decResult) {
 		if err := json.Unmarshal(body, &s); err != nil {
 			return decResult{sx: decErr}
 		}
-		// Script.ToCore ranges over the vars map in Go's unspecified order and stops at the first error/panic. To stay
-		// deterministic the real function is run once per variable (single-entry map); a panic dominates an error.
+		// Script.ToCore ranges over the vars map in Go's unspecified order and stops at the first error. To stay deterministic
+		// (also on a tree where a variable still panics) the real function is run once per variable (single-entry map).
 		merged := map[string]string{}
 		sawErr, panicMsg := false, ""
 		for k, raw := range s.Vars {
@@ -886,15 +886,6 @@ func monitorAccepted(kind string, res decResult) string {
 func monitorPanic(kind string, j *AJ, res decResult) string {
 	if res.panic == "" {
 		return ""
-	}
-	if kind == "v1script" && j.K == 'o' {
-		if vs := j.get("vars"); vs != nil && vs.K == 'o' {
-			for _, kv := range vs.O {
-				if k := kv.V.K; k == 'n' || k == 'b' || k == 'a' {
-					return fmt.Sprintf("v1 Script.ToCore panics on variable %q of JSON type %c: %s [v1-script-vars-panic]", kv.K, k, res.panic)
-				}
-			}
-		}
 	}
 	return fmt.Sprintf("decoder %s panics: %s [decoder-panic]", kind, res.panic)
 }
